@@ -52,8 +52,12 @@ var c07Sessions = []uint32{0x51, 0x52, 0x53, 0xfffffff0}
 
 // badValues: configured set-values that cannot be put into an authorization REPLY.
 func addBadService(t *rapid.T, u *cfggen.User) {
+	u.Services = append(u.Services, badService(rapid.IntRange(0, 4).Draw(t, "bad_value_kind")))
+}
+
+func badService(kind int) cfggen.Service {
 	s := cfggen.Service{Name: "shell"}
-	switch rapid.IntRange(0, 4).Draw(t, "bad_value_kind") {
+	switch kind {
 	case 0:
 		s.SetValues = []cfggen.Value{{Name: "rôle", Values: []string{"x"}}}
 	case 1:
@@ -67,7 +71,36 @@ func addBadService(t *rapid.T, u *cfggen.User) {
 	default:
 		s.SetValues = []cfggen.Value{{Name: "ok", Values: []string{"1"}}, {Name: "café", Values: []string{"2"}, Optional: true}}
 	}
-	u.Services = append(u.Services, s)
+	return s
+}
+
+// TestC07EnumBadValues: every kind of configured value that cannot go into an authorization REPLY, asked
+// for by a session authorization (alone, twice in a row, and with another request behind it in the same
+// read): exactly one reply each time.
+func TestC07EnumBadValues(t *testing.T) {
+	for kind := 0; kind <= 4; kind++ {
+		for _, format := range []string{"yaml", "json"} {
+			var w cfggen.World
+			w.Keychain = map[string]string{}
+			w.Cfg.Secrets = []cfggen.Secret{cfggen.NewSecret(cfggen.ScopeA, cfggen.KeyA, cfggen.PrefixA)}
+			w.Cfg.Users = []cfggen.User{{Name: "alice", Scopes: []string{cfggen.ScopeA}, Authenticator: cfggen.BcryptAuth("pw-alpha"), Services: []cfggen.Service{badService(kind)}}}
+			req := func(args ...string) model.B {
+				var margs []model.B
+				for _, a := range args {
+					margs = append(margs, model.B(a))
+				}
+				return model.AuthorRequest{Method: 6, Priv: 1, AType: 1, Service: 1, User: b("alice"), Port: b("tty0"), RemAddr: b("r"), Args: margs}.Encode()
+			}
+			c := c07Case{World: w, Format: format, Steps: []c07Step{
+				{Path: "author-session", Type: 2, Sess: 0, SeqMode: "next", Body: req("service=shell", "cmd=")},
+				{Path: "author-session", Type: 2, Sess: 1, SeqMode: "next", Body: req("service=shell", "cmd*")},
+				{Path: "author-session", Type: 2, Sess: 2, SeqMode: "next", Body: req("service=shell", "cmd="), Tail: "author"},
+				{Path: "author-session", Type: 2, Sess: 0, SeqMode: "next", Body: req("service=shell"), Slow: true},
+			}}
+			paths := runC07(t, c)
+			classifyC07(c, paths)
+		}
+	}
 }
 
 func genC07(t *rapid.T) c07Case {
